@@ -425,7 +425,7 @@ func (vr *variableResolver) resolve(ctx *ExecutionContext) (*Value, error) {
 						if sv.IsNil() {
 							return AsValue(nil), nil
 						}
-						if sv.val.Type().AssignableTo(current.Type().Key()) && sv.val.Type().Comparable() {
+						if sv.val.Type().AssignableTo(current.Type().Key()) && sv.val.Comparable() {
 							current = current.MapIndex(sv.val)
 						} else {
 							return AsValue(nil), nil
